@@ -459,10 +459,16 @@ def run_parent(mod, tier, seed, nshards_override=None):
         logp = os.path.join(tmp, f'shard{i}.log')
         tag = uuid.uuid4().hex
         logf = open(logp, 'wb')
+        extra_env = {'VERIF_TAG': tag}
+        if getattr(mod, 'INJECT', False):
+            injdir = os.path.join(tmp, f'inject{i}')
+            os.makedirs(injdir, exist_ok=True)
+            extra_env['VERIF_INJECT_DIR'] = injdir
+            extra_env['VERIF_INJECT_SPIN'] = '0.6'
         p = subprocess.Popen([PY, os.path.join(HARNESS, 'main.py'), mod.ID, '--tier', tier, '--seed', str(seed),
                               '--shard', f'{i}/{nshards}', '--out', outp],
                              stdin=subprocess.DEVNULL, stdout=logf, stderr=subprocess.STDOUT,
-                             env=child_env({'VERIF_TAG': tag}), start_new_session=True, cwd=VERIF)
+                             env=child_env(extra_env), start_new_session=True, cwd=VERIF)
         procs.append((p, outp, logp, tag, logf))
     hard = getattr(mod, 'TIME_BUDGET', {}).get(tier, 3600) * 1.5 + 120
     deadline = time.monotonic() + hard
